@@ -167,6 +167,7 @@ type auditSink struct {
 	torn     int           // quiet mode: writes that were not whole records
 	delay    time.Duration // quiet mode: sleep this long in every Write
 	hook     func()        // if set: called once, outside the sink's own lock, when the next record arrives
+	slow     time.Duration // recording mode: sleep this long before accepting a record (a stalled log device)
 	wantHost string        // if set: a record whose principal names another hostname identifies nobody (principal -1)
 	wantIP   string        // likewise for the address
 }
@@ -215,6 +216,12 @@ func (s *auditSink) Write(p []byte) (int, error) {
 			}
 		}
 		return len(p), nil
+	}
+	if s.slow > 0 {
+		d := s.slow
+		s.mu.Unlock()
+		time.Sleep(d)
+		s.mu.Lock()
 	}
 	s.noteSave()
 	if s.failNext == "write" {
